@@ -343,6 +343,7 @@ func init() {
 			w.Reset(fmt.Sprintf("%s/seed=%d", sc.Name, seed))
 			sc.Setup(w)
 			faults := 3
+			conflicts := 2
 			flight := map[string]*Pass{}
 			finish := func(p *Pass) {
 				delete(flight, p.Actor)
@@ -389,6 +390,12 @@ func init() {
 						if faults > 0 && rng.Intn(10) == 0 {
 							faults--
 							fault = []string{"before", "after", "conflict"}[rng.Intn(3)]
+						}
+						// the deployer's Update of the ObjectDeployment races with the deployment controller's status writes
+						if fault == "" && conflicts > 0 && p.Actor == "pk" && p.Pending != nil && p.Pending.verb == "Update" &&
+							p.Pending.key.Kind == "ObjectDeployment" && rng.Intn(3) == 0 {
+							conflicts--
+							fault = "conflict"
 						}
 						n := 1
 						if a.mode == "atomic" {
